@@ -170,6 +170,19 @@ CHECKS = {
         "Sub-second UTC offsets are outside the domain; one listed known finding (datetime[] text in SQLite).",
         "DESIGN.md 4/C13",
     ),
+    "C14": (
+        "exploration",
+        "property-based round-trip + output-shape validation (incremental JSON parse) over descriptors x values x "
+        "writer configurations",
+        "Generated records over every JSON-supported type (scalar and list) are written with descriptors on/off and "
+        "indent None/0/2/4, directly and through RecordWriter URIs. The output must parse as a sequence of JSON "
+        "objects (one per line without indent) whose keys are the record's fields plus the type markers; with "
+        "descriptors the records read back must have equal deep observations; without descriptors every line must "
+        "read back as a record carrying the same scalar JSON values.",
+        "NaN payload bits are not distinguished (JSON has a single NaN token); windows-flavoured paths are outside "
+        "the statement (POSIX paths).",
+        "DESIGN.md 4/C14",
+    ),
 }
 
 NOT_APPLICABLE = {}
